@@ -259,6 +259,13 @@ def finish(res, level='exploration', rule='', assumptions=(), min_cells=1):
     """Match findings, print verdict lines, write evidence, return exit code."""
     prop = res.prop
     unlisted, listed, fmap = findings.classify(res.records)
+    try:
+        os.makedirs(os.path.join(build.WORK, 'last'), exist_ok=True)
+        json.dump([{k: v for k, v in r.items() if k != 'detail'} for r in res.records],
+                  open(os.path.join(build.WORK, 'last', prop + '.records.json'), 'w'))
+        json.dump(res.api_missing, open(os.path.join(build.WORK, 'last', prop + '.apimissing.json'), 'w'))
+    except OSError:
+        pass
     # api-missing events are violations only where the property demands the API; the per-property
     # code decides by moving them into res.records beforehand.
     lines = []
